@@ -156,6 +156,26 @@ def toXY {α : Type} (A : Arith α) (mercN : α → α) (twoPi : α) (scale lat0
   let p := toMercator A mercN twoPi scale lat lon
   (A.sub p.1 l.1, A.mul (A.sub p.2 l.2) (A.neg (A.lit 1)))
 
+/-- the operations `to_mercator` uses, for the definitions translated from the source (`Gen/Formulas.lean`) -/
+structure MercOps (α : Type) where
+  add : α → α → α
+  sub : α → α → α
+  mul : α → α → α
+  div : α → α → α
+  neg : α → α
+  lit : Nat → α
+  pi : α
+  ln : α → α
+  tan : α → α
+
+/-- the arithmetic part of a `MercOps` -/
+def MercOps.arith {α : Type} (H : MercOps α) : Arith α :=
+  { add := H.add, sub := H.sub, mul := H.mul, div := H.div, neg := H.neg, lit := H.lit }
+
+/-- `ln(tan(π/4 + lat_rad/2))` as `to_mercator` writes it -/
+def MercOps.mercN {α : Type} (H : MercOps α) (lat : α) : α :=
+  H.ln (H.tan (H.add (H.div H.pi (H.lit 4)) (H.div (H.mul lat (H.div H.pi (H.lit 180))) (H.lit 2))))
+
 def floatArith : Arith Float := { add := (· + ·), sub := (· - ·), mul := (· * ·), div := (· / ·), neg := fun x => -x, lit := Float.ofNat }
 def piApp : Float := 3.14159265358979323846264338327950288
 def mercNF (lat : Float) : Float := Float.log (Float.tan (piApp / 4.0 + (lat * (piApp / 180.0)) / 2.0))
